@@ -1,6 +1,4 @@
 //! Harness binary for property C20. `c20 C20 [--seed N --worker I --nworkers N --tier T --out F --replay F]`.
-mod check;
-
 fn main() {
-    vh::runner::main_for(|ctx| check::run(ctx));
+    vh::runner::main_for(|ctx| c20::check::run(ctx));
 }
